@@ -209,18 +209,21 @@ Proof.
 Qed.
 Print Assumptions C14_nonsimplex_finder_sound_partial.
 
-(* the 1-D finder (digitize on the sorted vertices): for every chain mesh — vertex coordinates ps strictly increasing (in
-   sorted order), ANY vertex numbering ixs (no repetition), cells in ANY order (cell c spans [ps[pos c], ps[pos c + 1]],
-   every interval exactly once) — every batch of points of [ps[0], ps[n-1]] (end points and vertices included) is located
-   point by point in a cell that contains it, and a batch with a point outside that interval fails *)
-Theorem C14_line_finder_spec : forall (ps : list Q) (ixs pos : list nat),
-    incr ps -> length ixs = length ps -> NoDup ixs -> (2 <= length ps)%nat ->
-    (forall j, In j pos -> (S j < length ps)%nat) -> (forall j, (S j < length ps)%nat -> In j pos) -> NoDup pos ->
+(* the 1-D finder (cells sorted by their left end, searchsorted): for ANY 1-D mesh — cells given by their end points
+   lefts[k] <= rights[k] in the order of increasing (distinct) left ends, non-overlapping (they may touch; GAPS between
+   them, i.e. disconnected meshes, and unused nodes are allowed), ANY cell numbering ixs — every batch of points each
+   lying in some cell (vertices and end points included) is located point by point in a cell that contains it, and a
+   batch with a point in no cell (outside, or in a gap) fails *)
+Theorem C14_line_finder_spec : forall (lefts rights : list Q) (ixs : list nat),
+    incr lefts -> length rights = length lefts -> length ixs = length lefts ->
+    (forall k, (k < length lefts)%nat -> nth k lefts 0 <= nth k rights 0) ->
+    (forall k, (S k < length lefts)%nat -> nth k rights 0 <= nth (S k) lefts 0) ->
     forall xs,
-      ((forall x, In x xs -> nth 0 ps 0 <= x <= nth (length ps - 1) ps 0) ->
-         exists r, gen_line_finder ps ixs (maxt_of ixs pos) xs = Some r /\
-                   Forall2 (fun x c => nth (nth c pos 0%nat) ps 0 <= x <= nth (S (nth c pos 0%nat)) ps 0) xs r) /\
-      ((exists x, In x xs /\ (x < nth 0 ps 0 \/ nth (length ps - 1) ps 0 < x)) -> gen_line_finder ps ixs (maxt_of ixs pos) xs = None).
+      ((forall x, In x xs -> exists j, (j < length lefts)%nat /\ nth j lefts 0 <= x <= nth j rights 0) ->
+         exists r, gen_line_finder lefts rights ixs xs = Some r /\
+                   Forall2 (fun x c => exists k, (k < length lefts)%nat /\ nth_error ixs k = Some c /\ nth k lefts 0 <= x <= nth k rights 0) xs r) /\
+      ((exists x, In x xs /\ forall j, (j < length lefts)%nat -> ~ (nth j lefts 0 <= x <= nth j rights 0)) ->
+         gen_line_finder lefts rights ixs xs = None).
 Proof. exact gen_line_finder_spec. Qed.
 Print Assumptions C14_line_finder_spec.
 
@@ -301,13 +304,14 @@ Proof.
 Qed.
 Print Assumptions C14_quad_instance.
 
-(* non-vacuity of the 1-D theorem: vertices 0 < 1 < 3 < 7 numbered 1, 3, 0, 2; cells in the order [1,3], [3,7], [0,1] *)
+(* non-vacuity of the 1-D theorem: cells [0,1], [1,3] and, after a gap, [5,7], numbered 2, 0, 1; the vertex 1 goes to the cell
+   on its right, the right ends 3 and 7 to the cells they close, 4 (in the gap) and 8 (outside) fail *)
 Example C14_line_instance :
-  gen_line_finder [0; 1; 3; 7] [1; 3; 0; 2]%nat (maxt_of [1; 3; 0; 2]%nat [1; 2; 0]%nat) [0; 1; 2; 7; 1 # 2] = Some [2; 0; 0; 1; 2]%nat /\
-  gen_line_finder [0; 1; 3; 7] [1; 3; 0; 2]%nat (maxt_of [1; 3; 0; 2]%nat [1; 2; 0]%nat) [2; 8] = None /\
-  incr [0; 1; 3; 7] /\ NoDup [1; 3; 0; 2]%nat /\ NoDup [1; 2; 0]%nat.
+  gen_line_finder [0; 1; 5] [1; 3; 7] [2; 0; 1]%nat [0; 1; 2; 3; 7; 1 # 2; 6] = Some [2; 0; 0; 0; 1; 2; 1]%nat /\
+  gen_line_finder [0; 1; 5] [1; 3; 7] [2; 0; 1]%nat [2; 4] = None /\
+  gen_line_finder [0; 1; 5] [1; 3; 7] [2; 0; 1]%nat [2; 8] = None /\ incr [0; 1; 5].
 Proof.
-  split; [vm_compute; reflexivity|]. split; [vm_compute; reflexivity|]. split; [simpl; repeat split; reflexivity|].
-  split; repeat constructor; simpl; intuition discriminate.
+  split; [vm_compute; reflexivity|]. split; [vm_compute; reflexivity|]. split; [vm_compute; reflexivity|].
+  simpl; repeat split; reflexivity.
 Qed.
 Print Assumptions C14_line_instance.
